@@ -2,9 +2,10 @@
 """C15 - an environment's behaviour depends on its contents, not on its history (DESIGN.md §3 C15).
 
 Histories over {add_template, add_template_owned (3 Cow combinations), remove_template, clear_templates,
-set_loader (closures whose answers change with a clock), add/remove filter/test/global (custom names and
-built-ins), clone (continue on either copy), switch, render (ok / compile-time failure / run-time failure /
-failing or panicking context), the ad-hoc entry points render_named_str / render_str / template_from_named_str /
+set_loader (closures whose answers change with a clock), add/remove filter/test/global (custom names,
+built-ins, user functions/filters/tests taking Kwargs, a global holding a container), clone (continue on either copy), switch, render (any of 4 contexts, into a String or a failing writer, on
+this or a new thread; ok / compile-time failure / run-time failure in tojson, in filters, in assert_all_used,
+in the sink / failing or panicking context), the ad-hoc entry points render_named_str / render_str / template_from_named_str /
 template_from_str / compile_expression(_owned) / undeclared_variables with names that collide with stored or
 loader-served templates, set_trim_blocks / set_keep_trailing_newline} are run against the real engine; after EVERY step
 the harness reports what every name renders in the current and in the other environment.
@@ -491,33 +492,40 @@ def main():
     failing = [(i, f) for i, f in enumerate(r["fails"]) if f]
     chk.cov["failing_histories"] = len(failing)
     seen = set()
-    for i, f in sorted(failing, key=lambda t: len(hists[t[0]]))[:6]:
+    # prefer failures that show up when the history runs alone in a process of its own
+    cand = sorted(failing, key=lambda t: len(hists[t[0]]))[:3000]
+    alone_res = evaluate([hists[i] for i, _ in cand], profiles=(False,), want_model=False, chunk_main=1)["fails"] if cand else []
+    # (the fresh environments of this pass share a process, so its oracle-B verdicts come second)
+    alone_idx = [(i, f) for (i, f), a in zip(cand, alone_res) if a and a["oracle"] == "A"] + \
+                [(i, f) for (i, f), a in zip(cand, alone_res) if a and a["oracle"] != "A"]
+    for i, f in alone_idx[:40]:
         alone = evaluate([hists[i]], want_model=False, chunk_main=1, chunk_fresh=1)["fails"][0]
-        if alone:
-            small = shrink(hists[i])
-            f2 = evaluate([small], want_model=False, chunk_main=1, chunk_fresh=1)["fails"][0]
-            if not f2:
-                small, f2 = hists[i], alone
-            if tuple(small) in seen:
-                continue
-            seen.add(tuple(small))
-            chk.violation("environment behaviour depends on its history", {
-                "history": [list(s) for s in small], "describe": [describe_step(s) for s in small], "failure": f2,
-                "shrunk_from_steps": len(hists[i]), "how": "./check C15 --replay <this file>"})
-        else:
-            pre = shrink_batch(hists[:i], hists[i])
-            key = ("batch", len(pre))
-            if key in seen:
-                continue
-            seen.add(key)
-            f2 = evaluate(pre + [hists[i]], want_model=False, chunk_fresh=1)["fails"][-1] or f
-            chk.violation("an environment's behaviour depends on OTHER environments created earlier in the same process (process-global state)", {
-                "batch": [[list(s) for s in h] for h in pre + [hists[i]]],
-                "describe": [[describe_step(s) for s in h] for h in pre + [hists[i]]], "failure_in_last_history": f2,
-                "note": "each history runs on its own new Environment, one after the other in one process; the last one fails only in this company",
-                "how": "./check C15 --replay <this file>"})
+        if not alone:
+            continue
+        small = shrink(hists[i])
+        f2 = evaluate([small], want_model=False, chunk_main=1, chunk_fresh=1)["fails"][0]
+        if not f2:
+            small, f2 = hists[i], alone
+        if tuple(small) in seen:
+            continue
+        seen.add(tuple(small))
+        chk.violation("environment behaviour depends on its history", {
+            "history": [list(s) for s in small], "describe": [describe_step(s) for s in small], "failure": f2,
+            "shrunk_from_steps": len(hists[i]), "how": "./check C15 --replay <this file>"})
         if len(seen) >= 3:
             break
+    if not seen and cand:
+        # no failing history fails alone: it needs other environments created earlier in the same process
+        i, f = cand[0]
+        lo = max(0, i - 60)
+        pre = hists[lo:i] if evaluate(hists[lo:i] + [hists[i]], want_model=False, chunk_fresh=1)["fails"][-1] else hists[:i]
+        pre = shrink_batch(pre, hists[i])
+        f2 = evaluate(pre + [hists[i]], want_model=False, chunk_fresh=1)["fails"][-1] or f
+        chk.violation("an environment's behaviour depends on OTHER environments created earlier in the same process (process-global state)", {
+            "batch": [[list(s) for s in h] for h in pre + [hists[i]]],
+            "describe": [[describe_step(s) for s in h] for h in pre + [hists[i]]], "failure_in_last_history": f2,
+            "note": "each history runs on its own new Environment, one after the other in one process; the last one fails only in this company",
+            "how": "./check C15 --replay <this file>"})
     for i, prof, groups, final in mt_bad[:2]:
         chk.violation("concurrent renders from a shared environment disagree with the sequential result (exploration; schedule-dependent)", {
             "history": [list(s) for s in hists[i]], "describe": describe(cases[i]), "profile": prof, "observed_groups": groups, "sequential": final,
